@@ -73,7 +73,8 @@ ROpsC == {Rm(p, ms) : p \in PatsC, ms \in {<<>>, G, P, <<"DELETE", "PUT">>}}
 COpsC == {Cl(""), Cl("/posts/"), Cl("/posts/a")}
 UOpsC == {}
 CfgsC == {Cfg(FALSE), Cfg(TRUE)}
-BasesC == {<<>>}
+\* the second base has interior nodes that are routes themselves ("/", "/posts/") with live routes below them
+BasesC == {<<>>, <<H("/", G), H("/posts/", GP), H("/posts/author", G), H("/posts/{id}/author", G)>>}
 ProbesC == <<W("/posts/author", <<>>), W("/posts/abc", <<>>), W("/posts/{id}/author", [id |-> "7q"]), W("/posts/", <<>>), W("/", <<>>),
              W("/posts/{id}", [id |-> "7q"]), A("/posts/autho"), A("/posts/authors"), A("/posts"), A("/posts/author/author"),
              A("/posts/a"), A(""), A("*")>>
